@@ -30,6 +30,7 @@ func checkC13(c *Ctx) {
 	c.checkReplyObligation()
 	c.checkPanicCensus()
 	c.checkValidatorInitialised()
+	c.checkDerefOfNullableResult()
 }
 
 // ---------------------------------------------------------------------------------------------
